@@ -146,6 +146,25 @@ def check(run, prog):
     run.ob("R-15.1", f"{main.key}::suffix-filter[glob directory]", w is None,
            f"a directory argument does not yield exactly the .c / .h files under it, recursively: {w}", ex, evaluations=len(res))
 
+    # sibling agreement of the two discovery routes on entries whose name starts with a dot: what the no-argument default
+    # finds under a directory is what naming that directory finds (whether hidden entries count is the tool's choice; that
+    # the two routes make the same choice is not)
+    TH = {"b.h": "\n", ".hid.c": "\n", ".git": {"x.c": "\n"},
+          "src": {"a.c": "\n", ".old.h": "\n", ".cache": {"gen.c": "\n"}, "sub": {".swap.c": "\n", "m.c": "\n"}}}
+    o0, vfs0 = runs.run(TH, [])
+    base = sorted(analysed(o0, vfs0))
+    w = None
+    for d in (["."], ["src"], ["src/sub"]):
+        o, vfs = runs.run(TH, d)
+        got = sorted(analysed(o, vfs))
+        top = vfs.abs(d[0]).rstrip("/") + "/"
+        want = [p for p in base if d == ["."] or p.startswith(top)]
+        if got != want and w is None:
+            w = (f"naming {d[0]!r} checks {[posixpath.relpath(p, vfs.cwd) for p in got]}, the no-argument default finds "
+                 f"{[posixpath.relpath(p, vfs.cwd) for p in want]} there")
+    run.ob("R-15.1", f"{main.key}::hidden-entries-agree", w is None,
+           f"the two discovery routes disagree on entries whose name starts with a dot: {w}", ex)
+
     # ---- R-15.5 ------------------------------------------------------------------------------------------
     run.rule("R-15.5", "the current-directory default is chosen from the arguments, not from what discovery found: runs whose "
              "arguments yield no C source (a file with another suffix, an empty directory, both) check nothing, and a run "
